@@ -60,7 +60,9 @@ REV = {"F": (0.0, 1.0), "R": (-1.0, 1.0), "B": (-1.0, 0.0)}
 # ----------------------------------------------------------------------------------------------------------------------
 # models
 # ----------------------------------------------------------------------------------------------------------------------
-def ring_model(family, k, rev, obj, direction="max", U_ring=1000.0, ex_rev=False, coef2=None, small=None, j=None):
+def ring_model(family, k, rev, obj, direction="max", U_ring=1000.0, ex_rev=False, coef2=None, small=None, j=None,
+               asym=None):
+    """asym = (neg, pos): ring reactions get (-neg*U_ring, pos*U_ring) instead of symmetric magnitudes"""
     import cobra
     m = cobra.Model(f"ring{family}{k}{rev}")
     cs = [cobra.Metabolite(f"c{i}", compartment="c") for i in range(k)]
@@ -82,6 +84,8 @@ def ring_model(family, k, rev, obj, direction="max", U_ring=1000.0, ex_rev=False
     for i in range(k):
         a = 2.0 if coef2 == i else 1.0
         lo, hi = REV[rev[i]]
+        if asym:
+            lo, hi = lo * asym[0], hi * asym[1]
         rxn(f"C{i}", {cs[i]: -a, cs[(i + 1) % k]: a}, (lo * U_ring, hi * U_ring))
     if family == "A":
         j = j if j is not None else max(1, k // 2)
@@ -106,8 +110,60 @@ def ring_model(family, k, rev, obj, direction="max", U_ring=1000.0, ex_rev=False
     return m
 
 
-IN_B = [(0.0, 1000.0)] * 3 + [(-1000.0, 1000.0)] * 4 + [(0.0, 10.0), (-10.0, 10.0), (-1000.0, 0.0), (1.0, 10.0), (-5.0, 1000.0)]
-EX_B = [(-10.0, 1000.0), (-1000.0, 1000.0), (0.0, 1000.0), (-5.0, 10.0), (-10.0, 0.0)]
+def route_model(neg=3000.0, pos=1000.0, mirrored=False, ex_rev=False, direction="max", loop="RR", sinks=2, obj="sinks"):
+    """the largest |bound| is a *lower* bound (mirrored: an upper bound) and the best cycle-free distribution needs it:
+    EX_A: A <=> (uptake = the big side), v1: B <=> A written against the flow (mirrored: A <=> B written with it),
+    `sinks` routes B --> S_i --> out capped at min(neg, pos), an unrelated internal 2-cycle X <=> Y.
+    best cycle-free sum of sink exports = min(big side, sinks * cap)"""
+    import cobra
+    m = cobra.Model(f"route{'M' if mirrored else ''}{int(neg)}_{int(pos)}")
+    A, B, X, Y = (cobra.Metabolite(x, compartment="c") for x in ("A", "B", "X", "Y"))
+    rxns = []
+
+    def rxn(rid, st, bounds):
+        r = cobra.Reaction(rid)
+        r.add_metabolites(st)
+        r.bounds = bounds
+        rxns.append(r)
+    cap = min(neg, pos)
+    if not mirrored:
+        # flux < 0 = uptake / A -> B; lower bounds -neg, upper bounds pos
+        if ex_rev:
+            rxn("EX_A", {A: 1.0}, (-pos, neg))
+        else:
+            rxn("EX_A", {A: -1.0}, (-neg, pos))
+        rxn("v1", {B: -1.0, A: 1.0}, (-neg, pos))
+    else:
+        # flux > 0 = uptake / A -> B; upper bounds neg (the big side), lower bounds -pos
+        if ex_rev:
+            rxn("EX_A", {A: -1.0}, (-neg, pos))
+        else:
+            rxn("EX_A", {A: 1.0}, (-pos, neg))
+        rxn("v1", {A: -1.0, B: 1.0}, (-pos, neg))
+    outs = []
+    for i in range(sinks):
+        S = cobra.Metabolite(f"S{i}", compartment="c")
+        rxn(f"v{i + 2}", {B: -1.0, S: 1.0}, (0.0, cap))
+        rxn(f"EX_S{i}", {S: -1.0}, (0.0, cap))
+        outs.append(f"EX_S{i}")
+    lo0, hi0 = REV[loop[0]]
+    lo1, hi1 = REV[loop[1]]
+    rxn("L0", {X: -1.0, Y: 1.0}, (lo0 * cap, hi0 * cap))
+    rxn("L1", {Y: -1.0, X: 1.0}, (lo1 * cap, hi1 * cap))
+    m.add_reactions(rxns)
+    from cobra.util.solver import set_objective
+    sign = 1.0 if direction == "max" else -1.0
+    if obj == "sinks":
+        set_objective(m, {m.reactions.get_by_id(o): sign for o in outs})
+    else:
+        # the big reaction itself: its flux runs against (mirrored: with) the way it is written
+        set_objective(m, {m.reactions.v1: sign * (1.0 if mirrored else -1.0)})
+    m.objective_direction = direction
+    return m
+
+
+IN_B = [(-3000.0, 1000.0), (-1000.0, 3000.0), (-2000.0, 500.0)] + [(0.0, 1000.0)] * 3 + [(-1000.0, 1000.0)] * 4 + [(0.0, 10.0), (-10.0, 10.0), (-1000.0, 0.0), (1.0, 10.0), (-5.0, 1000.0)]
+EX_B = [(-10.0, 1000.0), (-1000.0, 1000.0), (0.0, 1000.0), (-5.0, 10.0), (-10.0, 0.0), (-3000.0, 1000.0), (-2000.0, 0.0)]
 
 
 def rand_model(rng):
@@ -267,6 +323,39 @@ def model_cases(model, rng, tier, tag):
     return cases
 
 
+def fixed_small_specs():
+    """(witness base, ring_model kwargs): every bound clipped to a small number, so that add_loopless' delta_g range
+    1 <= |G| <= max |bound| is too narrow (NOTES_C17 finding 3).  Seed-independent."""
+    out = []
+    for small in (1.0, 2.0, 3.0, 5.0):
+        for family, k, rev in (("A", 3, "FFB"), ("A", 4, "FFFB"), ("A", 4, "FFBB"), ("A", 2, "FB"), ("B", 3, "RRR"),
+                               ("A", 3, "RRR"), ("A", 4, "RRRR")):
+            j = {3: 2, 4: 3}.get(k) if (family == "A" and rev.endswith("B") and k > 2) else None
+            out.append((f"small-fixed#{family}{k}{rev}:bound={small:g}",
+                        dict(family=family, k=k, rev=rev, obj="EX_out", direction="max", small=small, j=j)))
+    # two parallel routes that are both needed (ring capacity 1, import 2): potentials need |G| >= 3 > max |bound| = 2
+    out.append(("small-fixed#A4FFFB:bound=2:ring=1",
+                dict(family="A", k=4, rev="FFFB", obj="EX_out", direction="max", small=2.0, j=3, U_ring=1.0)))
+    out.append(("small-fixed#A3FFB:bound=3:ring=2",
+                dict(family="A", k=3, rev="FFB", obj="EX_out", direction="max", small=3.0, j=2, U_ring=2.0)))
+    return out
+
+
+def route_specs():
+    out = []
+    for neg, pos in ((3000.0, 1000.0), (1500.0, 1000.0), (3000.0, 10.0)):
+        for mirrored in (False, True):
+            for ex_rev in (False, True):
+                out.append(dict(neg=neg, pos=pos, mirrored=mirrored, ex_rev=ex_rev))
+    out.append(dict(neg=3000.0, pos=1000.0, direction="min"))
+    out.append(dict(neg=3000.0, pos=1000.0, mirrored=True, direction="min"))
+    out.append(dict(neg=3000.0, pos=1000.0, obj="v1"))
+    out.append(dict(neg=3000.0, pos=1000.0, mirrored=True, obj="v1", direction="min"))
+    out.append(dict(neg=3000.0, pos=1000.0, loop="FB", sinks=3))
+    out.append(dict(neg=3000.0, pos=1000.0, loop="FF", sinks=1))
+    return out
+
+
 def build_cases(tier, seed):
     rng = random.Random(seed * 104729 + 17)
     specs = []
@@ -291,21 +380,28 @@ def build_cases(tier, seed):
                     if family == "A" and k >= 3:
                         var["j"] = rng.choice([1, k // 2, k - 1])
                     specs.append(dict(family=family, k=k, rev=rev, obj=o, direction=dd, **var))
-    # big-M adequacy: everything bounded by a small number (max_bound of add_loopless)
-    for small in (1.0, 2.0, 3.0, 5.0):
-        for family, k, rev in (("A", 3, "FFB"), ("A", 4, "FFFB"), ("A", 4, "FFBB"), ("A", 2, "FB"), ("B", 3, "RRR"),
-                               ("A", 3, "RRR"), ("A", 4, "RRRR")):
-            j = {3: 2, 4: 3}.get(k)
-            specs.append(dict(family=family, k=k, rev=rev, obj="EX_out", direction="max", small=small,
-                              j=(j if family == "A" and rev.endswith("B") and k > 2 else None)))
-    # two parallel routes that are both needed (ring capacity 1, import 2): potentials need |G| >= 3 > max |bound| = 2
-    specs.append(dict(family="A", k=4, rev="FFFB", obj="EX_out", direction="max", small=2.0, j=3, U_ring=1.0))
-    specs.append(dict(family="A", k=3, rev="FFB", obj="EX_out", direction="max", small=3.0, j=2, U_ring=2.0))
-    # witnesses of the known findings first, so that they are evaluated even when the time budget cuts the run short
-    n_tail = 4 * 7 + 2
-    specs = [dict(family="B", k=2, rev="RR", obj="C0", direction="min"),
-             dict(family="A", k=2, rev="FB", obj="EX_out", direction="max")] + specs[-n_tail:] + specs[:-n_tail]
+    # asymmetric magnitudes (lower bounds larger than every upper bound and vice versa) on rings
+    for family, k, rev, o in (("A", 2, "RR", "EX_out"), ("A", 3, "RRR", "C0"), ("B", 3, "RRR", "C0"), ("C", 2, "RB", "C1"),
+                              ("A", 4, "RRRB", "EX_out"), ("B", 2, "RR", "C1")):
+        for asym in ((3.0, 1.0), (1.0, 3.0)):
+            for dd in ("max", "min"):
+                specs.append(dict(family=family, k=k, rev=rev, obj=o, direction=dd, asym=asym,
+                                  ex_rev=rng.random() < 0.3, j=(k - 1 if family == "A" and k > 2 else None)))
     cases = []
+    # fixed, seed-independent part: witnesses of the open class add_loopless:optimum-small-bounds (KNOWN_C17.json) ...
+    for base, sp in fixed_small_specs():
+        m = ring_model(**sp)
+        k = sp["k"]
+        cases.append({"task": "add_loopless", "objectives": [[{"C0": 1.0}, "max"], [{f"C{k - 1}": 1.0}, "min"]],
+                      "model": U.describe(m), "tag": "small-fixed", "witness_base": base})
+    # ... and the asymmetric route models (big-M must be the largest |bound|, not the largest upper bound)
+    for kw in route_specs():
+        m = route_model(**kw)
+        cases.append({"task": "add_loopless", "objectives": [[{"v1": 1.0}, "max"], [{"v1": 1.0}, "min"], [{"L0": 1.0}, "max"]],
+                      "model": U.describe(m), "tag": "route"})
+        for st in (["none"], ["optimize"], ["fva", "L0", "max", 1.0], ["fva", "L1", "min", 1.0], ["other", "v1", "min"],
+                   ["other", "v1", "max"]):
+            cases.append({"task": "loopless_solution", "start": st, "as_dict": False, "model": U.describe(m), "tag": "route"})
     for sp in specs:
         m = ring_model(**sp)
         cases += model_cases(m, rng, tier, "ring")
@@ -453,17 +549,18 @@ def check_add_loopless(case):
         if best[i] is not None and plain is not None and not oracle_lp.close(plain, best[i]):
             nontrivial = True
         okey = "add_loopless:optimum-small-bounds" if max_bound < 4 else "add_loopless:optimum"
+        det = "+".join(f"{v:g}*{k}" for k, v in sorted(coefs.items())) + ":" + dd
         if best[i] is None:
             if sol.status == "optimal":
-                fails.append((okey, f"no cycle-free distribution exists but status optimal ({coefs}, {dd})"))
+                fails.append((okey, f"no cycle-free distribution exists but status optimal ({coefs}, {dd})", det))
             continue
         if sol.status != "optimal":
             fails.append((okey, f"objective {coefs} {dd}: best cycle-free value {float(best[i])!r} but status {sol.status} "
-                                f"(max |bound| = {max_bound})"))
+                                f"(max |bound| = {max_bound})", det))
             continue
         if not oracle_lp.close(sol.objective_value, best[i]):
             fails.append((okey, f"objective {coefs} {dd}: optimum after add_loopless {sol.objective_value!r}, best "
-                                f"cycle-free value {float(best[i])!r} (plain FBA {float(plain)!r}, max |bound| = {max_bound})"))
+                                f"cycle-free value {float(best[i])!r} (plain FBA {float(plain)!r}, max |bound| = {max_bound})", det))
         v = U.fluxdict(sol.fluxes)
         for p in U.flux_problems(model, v):
             fails.append(("add_loopless:infeasible-flux", p))
@@ -480,8 +577,14 @@ def run_case(case):
     res.setdefault("evaluations", 1)
     light = {k: v for k, v in case.items() if k != "model"}
     res["sig"] = U.case_sig([U.model_sig(case["model"]), light])
-    res["failures"] = [{"key": k, "failure": f"{case['model']['id']} {light}: {msg}", "replay": case}
-                       for k, msg in res["failures"]]
+    out = []
+    for f in res["failures"]:
+        k, msg = f[0], f[1]
+        rec = {"key": k, "failure": f"{case['model']['id']} {light}: {msg}", "replay": case}
+        if case.get("witness_base"):
+            rec["witness"] = case["witness_base"] + ":" + (f[2] if len(f) > 2 else k)
+        out.append(rec)
+    res["failures"] = out
     res["sample"] = {"case": light, "model": case["model"], "info": res.get("info")}
     return res
 
